@@ -1,7 +1,431 @@
-"""C01 — not implemented yet (fail closed)."""
-from ..model import AnalysisError
+"""C01 Parsing an ACE keeps its meaning — plumbing between grammar, field splitter, Ace attributes and renderer."""
+
+from __future__ import annotations
+
+import ast
+import re as _re
+from typing import Dict, List, Optional, Set, Tuple
+
+from ..cfg import Node
+from ..core import Ctx, Report, snippet, where
+from ..fold import UNKNOWN, known
+from ..model import AnalysisError, Class, Func, own_nodes, src
+from ..pathsem import function_paths, resolve_local
+from ..typeinf import classes_of
+from .common import chain, chains_in, deep_resolve, first_difference, mentions, names_in, norm_field, normalised_body
+
 PROPERTY = "C01"
 LEVEL = "other"
-EXPLANATION = "not implemented"
-def run(ctx, rep, tier):
-    raise AnalysisError("rules for C01 are not implemented yet")
+EXPLANATION = (
+    "Decides that the plumbing between the ACE grammar, the field splitter, the Ace attributes and the renderer is "
+    "consistent on both platforms: every regex group is read exactly once and lands under the key of the grammar piece "
+    "it was built from; each key feeds the constructor of the attribute of the same name (source and destination alike, "
+    "both ports under the protocol name of the same Protocol object); the renderer lists the attributes in grammar "
+    "order; text is whitespace-normalised before any parser sees it; validation precedes construction; the splitter "
+    "vocabulary covers every selectable port name. Does not decide that the parsed sets equal Cisco's meaning of the "
+    "text (address classification, masking, operator semantics, token classification are value-level)."
+)
+ASSUMPTIONS = ["re.findall returns the groups of the first match in group order"]
+
+KEY_ALIASES = {"proto": "protocol", "log": "option", "text": "text", "address": "address"}
+NORMALISERS = {"init_line", "int_to_str", "lines_wo_spaces", "replace_spaces"}
+PARSERS = ["parsers.parse_ace_extended", "parsers.parse_ace_standard", "parsers.parse_action", "parsers.parse_address"]
+
+
+def regex_pieces(ctx: Ctx, f: Func) -> Tuple[str, List[Tuple[str, int]]]:
+    """(folded regex, [(piece local name, number of capturing groups)]) from the `regex = f"..."` assignment."""
+    env = ctx.folder.local_env(f)
+    rx = env.get("regex", UNKNOWN)
+    if not known(rx) or not isinstance(rx, str):
+        raise AnalysisError(f"{f.qualname}: local `regex` is no longer foldable")
+    node = None
+    for n in f.node.body:
+        if isinstance(n, ast.Assign) and isinstance(n.targets[0], ast.Name) and n.targets[0].id == "regex":
+            node = n.value
+    pieces: List[Tuple[str, int]] = []
+    if isinstance(node, ast.JoinedStr):
+        for v in node.values:
+            if isinstance(v, ast.FormattedValue) and isinstance(v.value, ast.Name):
+                pv = env.get(v.value.id, UNKNOWN)
+                if not known(pv) or not isinstance(pv, str):
+                    raise AnalysisError(f"{f.qualname}: regex piece {v.value.id} not foldable")
+                try:
+                    g = _re.compile(pv).groups
+                except _re.error:
+                    g = pv.count("(") - pv.count("(?")
+                pieces.append((v.value.id, g))
+    return rx, pieces
+
+
+def r01_1(ctx: Ctx, rep: Report) -> Dict[str, List[str]]:
+    rep.rule("R01.1")
+    orders: Dict[str, List[str]] = {}
+    for q in PARSERS:
+        f = ctx.func(q)
+        rep.instance()
+        rx, pieces = regex_pieces(ctx, f)
+        try:
+            ngroups = _re.compile(rx).groups
+        except _re.error as ex:
+            rep.violation(q, "regex", f"the assembled pattern does not compile: {ex}", where(f))
+            continue
+        group_piece: List[str] = []
+        for name, g in pieces:
+            group_piece.extend([name] * g)
+        if len(group_piece) != ngroups:
+            raise AnalysisError(f"{q}: cannot attribute {ngroups} groups to the {len(pieces)} pieces")
+        # data dict: key -> items[i] | result["k"]
+        data_keys: Dict[str, ast.AST] = {}
+        for n in own_nodes(f.node):
+            if isinstance(n, ast.Assign) and isinstance(n.targets[0], ast.Name) and isinstance(n.value, ast.Call) and src(n.value.func) == "dict":
+                for k in n.value.keywords:
+                    if k.arg:
+                        data_keys[k.arg] = k.value
+            elif isinstance(n, ast.Assign) and isinstance(n.targets[0], ast.Name) and isinstance(n.value, ast.Dict):
+                for k, v in zip(n.value.keys, n.value.values):
+                    if isinstance(k, ast.Constant):
+                        data_keys[str(k.value)] = v
+        items_name = None
+        for n in own_nodes(f.node):
+            if isinstance(n, ast.Assign) and isinstance(n.targets[0], ast.Name) and isinstance(n.value, ast.ListComp) and "strip" in src(n.value):
+                items_name = n.targets[0].id
+        if items_name is None:
+            raise AnalysisError(f"{q}: the stripped group list vanished")
+        locals_: Dict[str, ast.AST] = {}
+        for n in own_nodes(f.node):
+            if isinstance(n, (ast.Assign, ast.AnnAssign)) and n.value is not None:
+                t = n.targets[0] if isinstance(n, ast.Assign) else n.target
+                if isinstance(t, ast.Name):
+                    locals_[t.id] = n.value
+        used: Dict[int, List[str]] = {}
+        order: List[Tuple[int, str]] = []
+        okq = True
+        for key, v in data_keys.items():
+            idx = _group_index(v, items_name, locals_, ngroups)
+            if idx is None:
+                if isinstance(v, ast.Constant):
+                    continue  # fixed value ("ip", "any", "")
+                # result["dstport"] from the dstport/option splitter fed by one group
+                sub = _split_source(v, items_name, locals_, ngroups)
+                if sub is None:
+                    rep.violation(q, f"{key}={snippet(v)}", "the value of this key does not come from a regex group", where(f, v))
+                    okq = False
+                    continue
+                idx = sub
+            if idx >= ngroups or idx < 0:
+                rep.violation(q, f"{key}={snippet(v)}", f"group index {idx} outside the {ngroups} groups of the pattern: IndexError or wrong field", where(f, v))
+                okq = False
+                continue
+            used.setdefault(idx, []).append(key)
+            order.append((idx, key))
+            piece = group_piece[idx]
+            suffix = piece[3:] if piece.startswith("re_") else piece
+            want = KEY_ALIASES.get(suffix, suffix)
+            match = key == want or key.startswith(suffix) or suffix.startswith(key) or (suffix == "dstport" and key in ("dstport", "option")) or (want == "option" and key == "option")
+            if not match:
+                rep.violation(q, f"{key}={snippet(v)}", f"key {key!r} is filled from group {idx}, which the grammar piece `{piece}` produces: fields are swapped", where(f, v), inp="permit ip host 1.1.1.1 any")
+                okq = False
+        for g in range(ngroups):
+            if g not in used:
+                rep.violation(q, f"group {g} ({group_piece[g]})", "this capturing group is never read: a field of the line is dropped", where(f))
+                okq = False
+            elif len(used[g]) > 1 and not (set(used[g]) <= {"dstport", "option"}):
+                rep.violation(q, f"group {g} ({group_piece[g]}) -> {used[g]}", "one group feeds several keys", where(f))
+                okq = False
+        if okq:
+            rep.ok(f"{q}: {ngroups} groups", ", ".join(f"{group_piece[i]}→{'/'.join(used[i])}" for i in sorted(used)), where=where(f))
+        orders[q] = [k for _, k in sorted(order)]
+    rep.floor(4, "regex front ends")
+    return orders
+
+
+def _group_index(v: ast.AST, items: str, locals_: Dict[str, ast.AST], n: int) -> Optional[int]:
+    v = resolve_local(v, {k: x for k, x in locals_.items() if k != items})
+    if isinstance(v, ast.Subscript) and src(v.value) == items and not isinstance(v.slice, ast.Slice):
+        s = v.slice
+        if isinstance(s, ast.Constant) and isinstance(s.value, int):
+            return s.value if s.value >= 0 else n + s.value
+        if isinstance(s, ast.UnaryOp) and isinstance(s.op, ast.USub) and isinstance(s.operand, ast.Constant):
+            return n - s.operand.value
+    return None
+
+
+def _split_source(v: ast.AST, items: str, locals_: Dict[str, ast.AST], n: int) -> Optional[int]:
+    """result["k"] where result = _parse_dstport_option(items[i])  ->  i"""
+    if isinstance(v, ast.Subscript) and isinstance(v.value, ast.Name) and v.value.id in locals_:
+        call = locals_[v.value.id]
+        if isinstance(call, ast.Call) and call.args:
+            return _group_index(call.args[0], items, locals_, n)
+    return None
+
+
+FIELD_CTOR = {"srcaddr": "Address", "dstaddr": "Address", "protocol": "Protocol", "srcport": "Port", "dstport": "Port", "option": "Option"}
+
+
+def r01_2(ctx: Ctx, rep: Report, orders: Dict[str, List[str]]) -> None:  # noqa: C901
+    rep.rule("R01.2")
+    ls = ctx.func("Ace.line.setter")
+    locals_: Dict[str, ast.AST] = {}
+    for n in own_nodes(ls.node):
+        if isinstance(n, (ast.Assign, ast.AnnAssign)) and n.value is not None:
+            t = n.targets[0] if isinstance(n, ast.Assign) else n.target
+            if isinstance(t, ast.Name) and t.id not in locals_:
+                locals_[t.id] = n.value
+    dict_names = {k for k, v in locals_.items() if isinstance(v, (ast.NamedExpr, ast.Call)) and "parse_ace" in src(v)}
+    for n in own_nodes(ls.node):
+        if isinstance(n, ast.NamedExpr) and isinstance(n.target, ast.Name) and "parse_ace" in src(n.value):
+            dict_names.add(n.target.id)
+    rep.require(bool(dict_names), "Ace.line setter no longer parses through parsers.parse_ace_*")
+    stores: Dict[str, Tuple[ast.AST, ast.AST]] = {}
+    for n in own_nodes(ls.node):
+        if isinstance(n, ast.Assign) and isinstance(n.targets[0], ast.Attribute) and src(n.targets[0].value) == "self":
+            stores[n.targets[0].attr] = (resolve_local(n.value, locals_), n)
+    calls: Dict[str, ast.Call] = {}
+    for field, ctor in FIELD_CTOR.items():
+        rep.instance()
+        attr = "_" + field
+        if attr not in stores:
+            rep.violation("Ace.line.setter", attr, f"the setter never stores {attr}: the field keeps its previous value", where(ls))
+            continue
+        v, node = stores[attr]
+        if not (isinstance(v, ast.Call) and src(v.func) == ctor):
+            rep.violation("Ace.line.setter", f"{attr} = {snippet(v)}", f"{attr} must hold a {ctor} built from the parsed field", where(ls, node))
+            continue
+        calls[field] = v
+        keys = []
+        for a in list(v.args) + [k.value for k in v.keywords]:
+            for x in ast.walk(a):
+                if isinstance(x, ast.Subscript) and isinstance(x.value, ast.Name) and x.value.id in dict_names and isinstance(x.slice, ast.Constant):
+                    keys.append(x.slice.value)
+        if keys == [field]:
+            rep.ok(f"Ace.line setter: {attr} = {ctor}(<{field}>...)", "key, constructor and attribute agree", where=where(ls, node))
+        else:
+            rep.violation("Ace.line.setter", f"{attr} = {ctor}({', '.join(map(str, keys))} ...)", f"attribute {attr} is built from parsed key(s) {keys}, expected {field!r}: fields are crossed", where(ls, node), inp="permit tcp host 1.1.1.1 eq 1 host 2.2.2.2 eq 2")
+        # the object's own previous state may be read only from the same attribute
+        foreign = sorted({c[1] for a in list(v.args) + [k.value for k in v.keywords] for c in chains_in(a) if c[0] == "self" and len(c) >= 3 and c[1] in {"_" + f2 for f2 in FIELD_CTOR} and c[1] != attr})
+        rep.instance()
+        if foreign:
+            rep.violation("Ace.line.setter", f"{attr} = {snippet(v, 90)}", f"the new {field} object is fed from {foreign} (another field's object): state leaks from one side of the entry to the other", where(ls, node), inp="an ACE with address groups in source and destination, rebuilt from data()")
+        else:
+            rep.ok(f"Ace.line setter: {attr} carries over only its own previous state", "no cross-field read", nontrivial=False, where=where(ls, node))
+    # sibling agreement of the two address constructors and of the two port constructors
+    for a, b in (("srcaddr", "dstaddr"), ("srcport", "dstport")):
+        if a in calls and b in calls:
+            rep.instance()
+            sa = src(calls[a]).replace("src", "dst")
+            sb = src(calls[b])
+            if sa == sb:
+                rep.ok(f"Ace.line setter: {a} ≡ {b}", "identical constructor calls modulo src↔dst", where=where(ls))
+            else:
+                rep.violation("Ace.line.setter", f"{snippet(calls[a], 70)} <> {snippet(calls[b], 70)}", f"{a} and {b} are built differently", where(ls))
+    # both ports get the protocol name of the Protocol object that is stored
+    rep.instance()
+    proto_store = stores.get("_protocol")
+    pn_ok = False
+    if proto_store is not None and "srcport" in calls and "dstport" in calls:
+        pobj = proto_store[1].value  # un-resolved: the local name
+        pname = src(pobj)
+        vals = []
+        for field in ("srcport", "dstport"):
+            kw = {k.arg: k.value for k in calls[field].keywords if k.arg}
+            star = [resolve_local(k.value, locals_) for k in calls[field].keywords if k.arg is None]
+            for s_ in star:
+                if isinstance(s_, ast.Call):
+                    kw.update({k.arg: k.value for k in s_.keywords if k.arg})
+            vals.append(src(kw["protocol"]) if "protocol" in kw else None)
+        pn_ok = vals[0] == vals[1] and vals[0] in (f"{pname}.name", f"{pname}.line")
+        if pn_ok:
+            rep.ok("Ace.line setter: port protocol", f"both ports are built under {vals[0]} of the Protocol object stored in _protocol", where=where(ls))
+        else:
+            rep.violation("Ace.line.setter", f"port protocol {vals}", f"both ports must be built under the name of the same Protocol object that is stored ({pname}): otherwise port names are looked up in the wrong table", where(ls))
+    # render order
+    g = ctx.func("Ace.line.getter")
+    lists = [n for n in own_nodes(g.node) if isinstance(n, (ast.List, ast.Tuple)) and len(n.elts) >= 3]
+    for lst in lists:
+        rep.instance()
+        fields = []
+        for e in lst.elts:
+            cs = [c for c in chains_in(e) if c[0] == "self" and len(c) >= 2]
+            if cs:
+                fields.append(norm_field(g.cls, cs[0][1].rstrip("()")).lstrip("_").replace("sequence_s", "sequence"))
+        want_ext = [k for k in orders.get("parsers.parse_ace_extended", [])]
+        want_std = [k for k in orders.get("parsers.parse_ace_standard", [])]
+        if len(fields) >= 6:
+            want = want_ext
+            kind = "extended"
+        else:
+            want = want_std
+            kind = "standard"
+        if fields == want:
+            rep.ok(f"Ace.line getter ({kind})", "renders " + ", ".join(fields) + " = order of the grammar pieces", where=where(g, lst))
+        else:
+            rep.violation("Ace.line.getter", f"{kind}: {fields}", f"the renderer's field order differs from the grammar's {want}: the text denotes another rule or does not parse back", where(g, lst), inp="permit ip host 1.1.1.1 any")
+    rep.floor(10, "field plumbing obligations")
+
+
+def field_isolation(ctx: Ctx, rep: Report, rid: str) -> None:
+    """Each field object built by Ace.line setter reads previous state only from its own attribute, and the
+    source/destination constructor calls agree (used by C03: group members feed the address cover)."""
+    rep.rule(rid)
+    ls = ctx.func("Ace.line.setter")
+    locals_: Dict[str, ast.AST] = {}
+    for n in own_nodes(ls.node):
+        if isinstance(n, (ast.Assign, ast.AnnAssign)) and n.value is not None:
+            t = n.targets[0] if isinstance(n, ast.Assign) else n.target
+            if isinstance(t, ast.Name) and t.id not in locals_:
+                locals_[t.id] = n.value
+    calls: Dict[str, ast.Call] = {}
+    for n in own_nodes(ls.node):
+        if isinstance(n, ast.Assign) and isinstance(n.targets[0], ast.Attribute) and src(n.targets[0].value) == "self":
+            attr = n.targets[0].attr
+            v = resolve_local(n.value, locals_)
+            if attr.lstrip("_") in FIELD_CTOR and isinstance(v, ast.Call):
+                calls[attr.lstrip("_")] = v
+                rep.instance()
+                foreign = sorted({c[1] for a in list(v.args) + [k.value for k in v.keywords] for c in chains_in(a) if c[0] == "self" and len(c) >= 3 and c[1] in {"_" + f2 for f2 in FIELD_CTOR} and c[1] != attr})
+                if foreign:
+                    rep.violation("Ace.line.setter", f"{attr} = {snippet(v, 90)}", f"the new {attr.lstrip('_')} object is fed from {foreign}: group members (or other state) of one side end up on the other, and the address cover test reads them", where(ls, n), inp="an ACE with address groups in source and destination, rebuilt from data() (copy, platform change, shading)")
+                else:
+                    rep.ok(f"Ace.line setter: {attr}", "reads previous state only from its own attribute", where=where(ls, n))
+    for a, b in (("srcaddr", "dstaddr"), ("srcport", "dstport")):
+        if a in calls and b in calls:
+            rep.instance()
+            if src(calls[a]).replace("src", "dst") == src(calls[b]):
+                rep.ok(f"Ace.line setter: {a} ≡ {b}", "identical constructor calls modulo src↔dst", where=where(ls))
+            else:
+                rep.violation("Ace.line.setter", f"{snippet(calls[a], 70)} <> {snippet(calls[b], 70)}", f"{a} and {b} are built differently", where(ls))
+    rep.floor(6, "field constructions in Ace.line setter")
+
+
+def normalise_first(ctx: Ctx, rep: Report, rid: str = "R01.3") -> None:
+    rep.rule(rid)
+    n = 0
+    for cls in ctx.prog.classes.values():
+        st = cls.setters.get("line")
+        if st is None:
+            continue
+        n += 1
+        rep.instance()
+        param = st.params[1]
+        cfg = ctx.cfg(st)
+
+        def is_norm(nd: Node) -> bool:
+            if nd.ast is None or nd.kind != "stmt":
+                return False
+            for x in ast.walk(nd.ast):
+                if isinstance(x, ast.Call):
+                    fn = x.func
+                    name = fn.attr if isinstance(fn, ast.Attribute) else (fn.id if isinstance(fn, ast.Name) else "")
+                    if name in NORMALISERS and any(mentions(a, param) for a in x.args):
+                        return True
+            return False
+
+        def split_then_norm(nd: Node) -> bool:
+            """`lines = line.split("\\n")` followed by per-line init_line."""
+            if nd.kind == "stmt" and isinstance(nd.ast, ast.Assign) and isinstance(nd.ast.value, ast.Call):
+                c = nd.ast.value
+                if isinstance(c.func, ast.Attribute) and c.func.attr in ("split", "splitlines") and src(c.func.value) == param:
+                    if c.func.attr == "splitlines" or (c.args and isinstance(c.args[0], ast.Constant) and c.args[0].value == "\n"):
+                        tgt = src(nd.ast.targets[0])
+                        for m in cfg.live:
+                            if m.kind == "stmt" and m.ast is not None and cfg.dominates(nd, m) and m is not nd:
+                                for x in ast.walk(m.ast):
+                                    if isinstance(x, (ast.ListComp, ast.GeneratorExp)) and src(x.generators[0].iter) == tgt and any(isinstance(y, ast.Call) and (src(y.func).split(".")[-1] in NORMALISERS) for y in ast.walk(x.elt)):
+                                        return True
+            return False
+
+        users = [nd for nd in cfg.live if nd.ast is not None and nd.kind in ("stmt", "cond", "for") and mentions(nd.ast, param) and not (nd.kind == "stmt" and isinstance(nd.ast, ast.Expr) and isinstance(nd.ast.value, ast.Constant))]
+        if not users:
+            rep.ok(f"{st.qualname}", "stub (does not read the text)", nontrivial=False, where=where(st))
+            continue
+        first = users[0]
+        trivial = isinstance(first.ast, ast.Assign) and src(first.ast.targets[0]) == "_"
+        if trivial and len(users) == 1:
+            rep.ok(f"{st.qualname}", "stub (ignores the text)", nontrivial=False, where=where(st))
+            continue
+        norms = [nd for nd in users if is_norm(nd) or split_then_norm(nd)]
+        bad = [u for u in users if u not in norms and not any(cfg.dominates(nm, u) for nm in norms)]
+        # an isinstance type guard on the raw parameter is not a parse
+        bad = [u for u in bad if not (u.kind == "cond" and "isinstance" in src(u.ast))]
+        if not norms:
+            rep.violation(st.qualname, f"parameter {param}", "the incoming text is parsed without whitespace normalisation (init_line / int_to_str / lines_wo_spaces): double spaces survive into the rendered line", where(st), inp="'permit   ip  any any'")
+        elif bad:
+            rep.violation(st.qualname, snippet(bad[0].ast), f"the raw parameter {param} is used before it was normalised", where(st, bad[0].ast), inp="text with tabs or double spaces")
+        else:
+            rep.ok(st.qualname, f"every use of {param} is dominated by {snippet(norms[0].ast, 50)}", where=where(st, norms[0].ast))
+    rep.floor(11, "line setters")
+
+
+def r01_4(ctx: Ctx, rep: Report) -> None:
+    rep.rule("R01.4")
+    ls = ctx.func("Ace.line.setter")
+    cfg = ctx.cfg(ls)
+    rep.instance()
+
+    def is_check(n: Node) -> bool:
+        return n.ast is not None and n.kind == "stmt" and any(isinstance(x, ast.Call) and src(x.func).endswith("_check_parsed_elements") for x in ast.walk(n.ast))
+
+    def is_ctor(n: Node) -> bool:
+        return n.ast is not None and n.kind == "stmt" and any(isinstance(x, ast.Call) and src(x.func) in set(FIELD_CTOR.values()) for x in ast.walk(n.ast))
+
+    checks = [n for n in cfg.live if is_check(n)]
+    ctors = [n for n in cfg.live if is_ctor(n)]
+    if not checks:
+        rep.violation("Ace.line.setter", "_check_parsed_elements", "the parsed elements are not validated (protocol/port exclusions)", where(ls), inp="permit ip any eq 1 any")
+    elif all(cfg.dominates(checks[0], c) for c in ctors):
+        rep.ok("Ace.line setter", f"_check_parsed_elements dominates all {len(ctors)} field constructions", where=where(ls, checks[0].ast))
+    else:
+        rep.violation("Ace.line.setter", "validation order", "a field object is constructed before the parsed elements were validated", where(ls))
+    rep.instance()
+    prod = []
+    ace = ctx.cls("Ace")
+    for f in ace.all_funcs():
+        for n in own_nodes(f.node):
+            if isinstance(n, ast.Assign) and any(isinstance(t, ast.Attribute) and src(t.value) == "self" and t.attr == "_action" for t in n.targets):
+                prod.append((f, n))
+    bad = [(f, n) for f, n in prod if not (f.name == "__init__" and isinstance(n.value, ast.Constant)) and not (isinstance(n.value, ast.Call) and src(n.value.func).endswith("init_ace_action"))]
+    if bad:
+        rep.violation(bad[0][0].qualname, snippet(bad[0][1]), "the action is stored without going through init_ace_action (permit/deny validation)", where(bad[0][0], bad[0][1]))
+    else:
+        rep.ok("Ace._action", f"{len(prod)} store(s): placeholder in __init__ and init_ace_action(...) in the line setter", where=where(ls))
+    # init_ace_action accepts exactly permit/deny
+    ia = ctx.func("helpers.init_ace_action")
+    rep.instance()
+    okset = False
+    for n in own_nodes(ia.node):
+        if isinstance(n, ast.Assign) and isinstance(n.value, (ast.List, ast.Tuple, ast.Set)):
+            v = ctx.folder.fold(n.value, ia.module)
+            if known(v) and set(v) == {"permit", "deny"}:
+                okset = True
+    acts = set(ctx.folder.const("helpers", "ACTIONS"))
+    if okset and acts == {"remark", "permit", "deny"}:
+        rep.ok("helpers.init_ace_action", "accepts exactly permit and deny (= ACTIONS minus remark)", where=where(ia))
+    else:
+        rep.violation("helpers.init_ace_action", "accepted actions", "an ACE action is one of permit, deny", where(ia))
+
+
+def run(ctx: Ctx, rep: Report, tier: str) -> None:
+    orders = r01_1(ctx, rep)
+    r01_2(ctx, rep, orders)
+    normalise_first(ctx, rep)
+    r01_4(ctx, rep)
+    # R01.5 = splitter vocabulary (R09.5)
+    rep.rule("R01.5")
+    from .c09 import selection_table
+
+    sub = type(rep)("C01")
+    sub.rule("R09.4")
+    sel = selection_table(ctx, sub)
+    vocab = ctx.folder.fold_straight_function(ctx.func("port_name.all_known_names"))
+    rep.require(known(vocab), "all_known_names no longer foldable")
+    need: Dict[str, str] = {}
+    for (_p, _pl, _m), (tname, table) in sel.items():
+        for name in table:
+            need.setdefault(name, tname)
+    rep.instance()
+    missing = sorted(set(need) - set(vocab))
+    if missing:
+        for m in missing:
+            rep.violation("port_name.all_known_names", f"name {m!r} of {need[m]}", f"'eq {m} log' is split as dstport 'eq' + option '{m} log': the rest of the destination ports moves into the options", where(ctx.func("port_name.all_known_names")), inp=f"permit tcp any any eq {m}")
+    else:
+        rep.ok("splitter vocabulary", f"{len(set(vocab))} names cover all {len(need)} selectable port names")
